@@ -49,10 +49,16 @@ def image(draw):
         cur += gap
         cur += (-cur) % bpa
         ln = draw(st.sampled_from([1, 2, 3, 15, 16, 17, 31, 33, 100, 255, 256, 257, 700]))
+        if big and i == 0 and draw(st.booleans()):
+            ln = draw(st.sampled_from([65535, 65536, 65537, 70000, 131073]))     # longer than any writer's block
         if cur + ln > 0xfffffff0 or cur + ln - base > (1 << 24):
             break
-        data = draw(st.binary(min_size=ln, max_size=ln))
-        if draw(st.integers(0, 3)) == 0:
+        if ln > 1000:
+            seed_ = draw(st.integers(1, 250))
+            data = bytes(((k * seed_) ^ (k >> 8)) & 0xff for k in range(ln))
+        else:
+            data = draw(st.binary(min_size=ln, max_size=ln))
+        if ln <= 1000 and draw(st.integers(0, 3)) == 0:
             data = bytes([draw(st.integers(0, 255))]) * ln
         segs.append((cur, data))
         cur += ln
@@ -74,6 +80,9 @@ def render(case):
         lines.append(".org 0x%x" % (a // bpa))
         if k in exports:
             lines.append("sym_%d:" % k)
+        if len(data) > 1000:
+            lines.append(".binfile \"seg%d.bin\"" % k)
+            continue
         for i in range(0, len(data), 16):
             lines.append(".db " + ", ".join("0x%02x" % b for b in data[i:i + 16]))
     for k in exports:
@@ -118,6 +127,7 @@ class Checker:
         self.s = stats
         self.w = worker
         self.known = load_known(PROP)
+        self.cur_segs = []
 
     def known_match(self, kind, fmt, case):
         cpu, segs, order, entry, exports = case
@@ -145,6 +155,9 @@ class Checker:
                              segs=[(a, d.hex()) for a, d in case[1]], cpuinfo=list(case[0])))
 
     def write(self, src, fmt):
+        for k, (a, data) in enumerate(self.cur_segs):
+            if len(data) > 1000:
+                self.w.write_file("seg%d.bin" % k, data)
         name = "out." + fmt
         path = os.path.join(self.w.dir, name)
         if os.path.exists(path):
@@ -164,6 +177,7 @@ class Checker:
         cpu, segs, order, entry, exports = case
         exp = expected_image(segs)
         low, high = min(exp), max(exp)
+        self.cur_segs = segs
         r, data = self.write(src, fmt)
         if isinstance(r, WorkerCrash):
             return self.fail("writer crashed", "crash", fmt, case, src, "file", r.report[-1200:])
@@ -227,6 +241,19 @@ class Checker:
                 got = {t["addr"] + i: b for i, b in enumerate(t["data"])}
                 if self.contiguous(fmt, case, src, exp, got, low, high, cpu[3] - 1) is False:
                     return False
+                for ph in elf["phdrs"]:
+                    if ph["type"] != 1:
+                        continue
+                    want_sz = high - low + 1
+                    if ph["vaddr"] != low or ph["filesz"] < want_sz or ph["memsz"] < want_sz:
+                        return self.fail("PT_LOAD program header does not cover the image", "wrong_phdr", fmt, case,
+                                         src, dict(vaddr=low, filesz=want_sz), ph)
+                    seg = data[ph["offset"]:ph["offset"] + ph["filesz"]]
+                    bad = [(hex(low + i), exp.get(low + i, 0), b) for i, b in enumerate(seg[:want_sz])
+                           if b != exp.get(low + i, 0)][:4]
+                    if bad or len(seg) < want_sz:
+                        return self.fail("bytes addressed by the PT_LOAD program header are not the image", "wrong_phdr",
+                                         fmt, case, src, None, bad or "segment beyond end of file")
                 if ep is not None and elf["entry"] != ep:
                     return self.fail("e_entry is not the entry point", "wrong_entry", fmt, case, src, ep, elf["entry"])
                 want = sorted(("sym_%d" % k, segs[k][0] // cpu[1]) for k in exports)
